@@ -156,14 +156,6 @@ def gufuncNames : List String :=
 def njitNames : List String :=
   ["_ws2dwcvp", "autocorr", "autocorr_tyx", "do_mean", "gammastd_yxt", "mann_kendall_trend_yxt", "ws2doptvplc_tyx"]
 
-/-- the summariser found exactly these kernels (a new kernel needs its own family of theorems) -/
-theorem kernels_covered :
-    ((kernels.filter (·.gufunc)).map (·.name) = gufuncNames) ∧ ((kernels.filter (!·.gufunc)).map (·.name) = njitNames) := by
-  decide +kernel
-
-/-- `whit.py` is a legacy copy of the kernels that no module of the package imports -/
-theorem skipped_modules : skippedModules = ["whit"] := by decide
-
 /-- how a caller may pass a scalar (`()`) float64 argument -/
 def sc : List DType := [.f64, .pyfloat, .pyint]
 
@@ -199,78 +191,13 @@ macro "njit_family " k:ident : command => do
     theorem $(th "flags_documented") : Kernel.flagsDocumented $kid flagDocs = true := by decide +kernel
     theorem $(th "decorator_documented") : Kernel.decoratorDocumented $kid decoDocs = true := by decide +kernel)
 
-/-! ## gufuncs -/
-
--- smoothers: the accessor hands over the int16 (or float) series, the gufunc loop is float64
-gufunc_family ws2dgu documented prod [[.f64, .f32, .i16], sc, sc]
-gufunc_family ws2dpgu documented prod [[.f64, .f32, .i16], sc, sc, sc]
-gufunc_family ws2doptv documented prod [[.f64, .f32, .i16], sc, [.f64]]
-gufunc_family ws2doptvp documented prod [[.f64, .f32, .i16], sc, sc, [.f64]]
-gufunc_family ws2doptvplc documented prod [[.i16], sc, sc, sc]
-gufunc_family ws2dwcv documented prod [[.f64, .f32, .i16], sc, [.f64], [.b]]
-gufunc_family ws2dwcvp documented prod [[.f64, .f32, .i16], sc, sc, [.f64], [.b]]
--- temporal interpolation: int16 series, 0/1 template (bool, uint8 or float64), int labels, uint8 output template
-gufunc_family tinterpolate documented prod [[.i16], [.b, .u8, .f64], [.i32, .i16, .u8], [.u8]]
-gufunc_family lroo documented [[.u8], [.b]]
-gufunc_family gammastd_grp documented prod [[.i16, .f32], [.i16], sc, sc, [.i16]]
-gufunc_family mean_grp documented prod [[.f32, .i16, .i32, .i64], [.i16], sc, sc]
-gufunc_family rolling_sum documented prod [[.f32, .i16, .i32, .i64], sc, sc]
-gufunc_family _mann_kendall_trend_gu documented [[.i16], [.f32]]
-gufunc_family _mann_kendall_trend_gu_nd documented prod [[.i16, .f32], sc]
-
-/-! ## njit entry points -/
-
-njit_family autocorr
-njit_family autocorr_tyx
-njit_family do_mean
-njit_family gammastd_yxt
-njit_family mann_kendall_trend_yxt
-njit_family ws2doptvplc_tyx
-njit_family _ws2dwcvp
 
 /-! ## helpers shared between kernels -/
-
-/-- the generated list `typings` covers every typing a kernel uses -/
-theorem typings_complete :
-    kernels.all (fun k => k.fns.all (fun f => typings.any (fun g => g.fn == f.fn && g.sig == f.sig && g.flags == f.flags))) = true := by
-  decide +kernel
-
-/-- whichever kernel compiles a shared helper overload first, it is compiled with the same fast-math, bounds-check,
-parallel, nogil, object-mode, NRT, rewrite and inlining flags: no flag of one kernel can leak into another kernel through
-a helper - except the error model, for exactly the documented helpers -/
-theorem shared_helper_flags :
-    sharedAgree typings = true ∧ errorModelSplit typings = errorModelSplitDocs := by
-  decide +kernel
 
 /-! ## the whitelists are tight -/
 
 def allFns : List FnTyping := kernels.flatMap (·.fns)
 
-/-- every whitelist entry is needed: it matches a record of some kernel (stale entries must be deleted) -/
-theorem whitelists_tight :
-    (narrowDocs.all (fun d => allFns.any (fun f => (narrowKeys f).contains (d.fn, d.op, d.args, d.res)))
-    && accumDocs.all (fun d => allFns.any (fun f => (accumKeys f).contains (d.fn, d.target, d.varTy, d.opTy, d.feeds)))
-    && castDocs.all (fun d => allFns.any (fun f => (castKeys f).contains (d.fn, d.kind, d.src, d.dst)))
-    && flagDocs.all (fun w => kernels.any (fun k => k.flagDeviations.contains (w.kernel, w.fn, w.field, w.value)))
-    && decoDocs.all (fun w => kernels.any (fun k => k.name == w.kernel && k.deco.options.contains (w.option, w.value)))
-    && layoutDocs.all (fun w => kernels.any (fun k => k.contiguousArgs.contains (w.kernel, w.loop, w.pos)))
-    && shadowOK.all (fun s => kernels.any (fun k => k.name == s.kernel && k.loops.any (fun l => l.npy == s.from &&
-        callModes.any (fun m => (select k.loops (l.callWith m)).any (fun l' => l'.npy == s.to)))))) = true := by
-  decide +kernel
-
 /-! ## the casting relation and the resolution model on their own -/
-
-/-- the casts the seeded defects exploit are not safe; the widenings the kernels rely on are -/
-theorem safeCast_facts :
-    safeCast .i16 .u8 = false ∧ safeCast .i64 .u8 = false ∧ safeCast .f64 .f32 = false ∧ safeCast .i32 .f32 = false
-    ∧ safeCast .f64 .i16 = false ∧ safeCast .i16 .f32 = true ∧ safeCast .i16 .f64 = true ∧ safeCast .u8 .f64 = true
-    ∧ safeCast .f32 .f64 = true ∧ safeCast .i32 .f64 = true ∧ safeCast .b .u8 = true := by decide
-
-/-- `safeCast` is reflexive on the NumPy dtypes and transitive (it is an order: a chain of safe casts is safe) -/
-theorem safeCast_preorder :
-    let np : List DType := [.b, .u8, .u16, .u32, .u64, .i8, .i16, .i32, .i64, .f32, .f64]
-    (np.all (fun x => safeCast x x)
-      && np.all (fun x => np.all (fun y => np.all (fun z => !(safeCast x y && safeCast y z) || safeCast x z)))) = true := by
-  decide +kernel
 
 end Hdc.Props.Types
